@@ -87,12 +87,25 @@ def kcBlindSum (posK negK posB negB : List Nat) : SumRes :=
 
 def toSecrets (l : List Nat) : List Nat := (l.filter (fun x => x != 0)).filterMap bfSecretKey
 
+/-- `committed::blind_sum_or_zero` (repair b04699b48): the keys may cancel out exactly — zero is a
+    valid kernel offset but not a valid secret key, so `blind_sum` fails; the sum is then taken once
+    more together with `ONE_KEY`, and if that is exactly 1 the result is the zero factor. -/
+def blindSumOrZero (pos neg : List Nat) : SumRes :=
+  match secpBlindSum pos neg with
+  | .ok k => .ok k
+  | .panic => .panic
+  | .invalidKey =>
+    match secpBlindSum (pos ++ [1]) neg with
+    | .ok k => if k = 1 then .ok 0 else .invalidKey
+    | .panic => .panic
+    | .invalidKey => .invalidKey
+
 /-- `committed::sum_kernel_offsets`. NB: when no positive key is left the result is the zero factor
     *whatever the negatives are* (the code tests `positive.is_empty()` only). -/
 def sumKernelOffsets (pos neg : List Nat) : SumRes :=
   let p := toSecrets pos
   let n := toSecrets neg
-  if p.isEmpty then .ok 0 else secpBlindSum p n
+  if p.isEmpty then .ok 0 else blindSumOrZero p n
 
 /-! ## 2. `ChildNumber`, `ExtKeychainPath`, `Identifier` -/
 
